@@ -2,7 +2,10 @@
 
 package rsa
 
-import "crypto"
+import (
+	"crypto"
+	"hash"
+)
 
 // Verification hooks (add-only): the unexported RSA primitives, so that the
 // correspondence harness can run them directly.
@@ -37,4 +40,13 @@ func VerifEMSAPSSEncode(mHash []byte, emBits int, salt []byte, h crypto.Hash) ([
 }
 func VerifEMSAPSSVerify(mHash, em []byte, emBits, sLen int, h crypto.Hash) error {
 	return emsaPSSVerify(mHash, em, emBits, sLen, h.New())
+}
+
+// VerifEMSAPSSEncodeWith / VerifEMSAPSSVerifyWith take the hash.Hash itself, so that a harness can
+// supply an instrumented or truncated hash.
+func VerifEMSAPSSEncodeWith(mHash []byte, emBits int, salt []byte, h hash.Hash) ([]byte, error) {
+	return emsaPSSEncode(mHash, emBits, salt, h)
+}
+func VerifEMSAPSSVerifyWith(mHash, em []byte, emBits, sLen int, h hash.Hash) error {
+	return emsaPSSVerify(mHash, em, emBits, sLen, h)
 }
